@@ -475,7 +475,20 @@ def r4_close_before_skip(ctx):
                 ctx.check(got == want, BR, "BranchingList.close_by_indent", cell, detail=got, expected=want)
     # the clause indent is recorded when the clause is registered
     sc = ctx.fn(BR, "BranchingList.solve_case")
-    ctx.form("indent=node.indent" in norm(sc).replace(" ", ""), BR, "BranchingList.solve_case", "every clause records the indentation of its keyword")
+    whatc = "every clause records the indentation of its keyword"
+    ctors = [c for c in ast.walk(sc) if isinstance(c, ast.Call) and norm(c.func) == "Case"]
+    if len(ctors) == 1 and ctors[0].keywords and not ctors[0].args and not any(k.arg is None for k in ctors[0].keywords):
+        kw = {k.arg: norm(k.value) for k in ctors[0].keywords}
+        if "indent" not in kw:
+            # the field has a default (0): a clause registered without it claims to stand at the left margin, and
+            # close_by_indent then compares every later line with indentation 0
+            ctx.violated(BR, "BranchingList.solve_case", whatc, detail=f"Case({', '.join(sorted(kw))}) - no indent", expected="indent=node.indent")
+        elif kw["indent"] == "node.indent" or kw["indent"].endswith(".indent"):
+            ctx.holds(BR, "BranchingList.solve_case", whatc, detail=kw["indent"])
+        else:
+            ctx.form(False, BR, "BranchingList.solve_case", whatc, detail=kw["indent"])
+    else:
+        ctx.form("indent=node.indent" in norm(sc).replace(" ", ""), BR, "BranchingList.solve_case", whatc)
 
 
 def _named_kinds_close(ctx, exempt):
